@@ -230,7 +230,13 @@ def classify_by_sections(by_merchant, sections_config, num_months=12):
         # Convert transaction format for section_engine
         section_txns = []
         for txn in txns:
-            txn_date = datetime.strptime(txn['month'] + '-15', '%Y-%m-%d')
+            # 'month' is YYYY-MM and 'date' is MM/DD: rebuild the real day, so that
+            # by("day") and by("week") group payments by their own dates
+            day = str(txn.get('date', '')).split('/')[-1]
+            try:
+                txn_date = datetime.strptime(f"{txn['month']}-{day}", '%Y-%m-%d')
+            except ValueError:
+                txn_date = datetime.strptime(txn['month'] + '-15', '%Y-%m-%d')
             section_txns.append({
                 'amount': txn['amount'],
                 'date': txn_date,
